@@ -56,6 +56,8 @@ def make_env(case, env_cls=None, names=None, syn=None, **opts):
         kw.update(block_start_string=syn[0], block_end_string=syn[1], variable_start_string=syn[2],
                   variable_end_string=syn[3])
     kw.update(opts)
+    if kw.get("autoescape") == "SELECT":
+        kw["autoescape"] = jinja2.select_autoescape()
     env = cls(**kw)
     for g, v in case["globals"].items():
         if v["t"] != "builtin":
